@@ -836,6 +836,62 @@ def run(ctx: Ctx) -> int:
         "KeyError/TypeError raised below a parse entry are converted by its handler; implicit exceptions of other types (AttributeError, RecursionError, ...) are not modelled",
         "PRELUDE calls (get_private_kwargs, return_parser_if_captured, handle_completions) are deliberately outside the conversion",
     ]
+    # ---------------- C03.R5 (json decoder used outside json mode) ----------------------------------------------------
+    # json.loads raises JSONDecodeError; only the json / jsonnet modes list it among their loader exceptions.  A json.loads
+    # call that is not THE json-mode loader runs in whatever mode is active (load_list_or_dict: the toml mode's fast path
+    # for list / dict looking text) - its failure has to be absorbed where it happens.
+    ld = repo.mod("_loaders_dumpers")
+    json_mode_loader = None
+    for st in ld.tree.body:
+        if isinstance(st, (ast.Assign, ast.AnnAssign)) and isinstance(getattr(st, "value", None), ast.Dict) and any(isinstance(t, ast.Name) and t.id == "loaders" for t in (st.targets if isinstance(st, ast.Assign) else [st.target])):
+            for k, v in zip(st.value.keys, st.value.values):
+                if const_str(k) == "json" and isinstance(v, ast.Name):
+                    json_mode_loader = v.id
+    ctx.need(json_mode_loader, "loaders['json'] in _loaders_dumpers")
+    n_jl = 0
+    for fq_, fn_ in repo.all_funcs():
+        for c in calls_in(fn_):
+            if call_name(c) != "json.loads":
+                continue
+            n_jl += 1
+            if fq_ == f"_loaders_dumpers:{json_mode_loader}":
+                ctx.oblige("C03.R5", True, c, "the json-mode loader: JSONDecodeError is among that mode's anticipated exceptions", fn=fn_)
+                continue
+            names = set()
+            for t_, part in enclosing_trys(c):
+                if part == "body":
+                    for h in t_.handlers:
+                        names |= set(handler_type_names(h))
+            for w_, it in enclosing_withs(c, stop=fn_):
+                if isinstance(it.context_expr, ast.Call) and call_leaf(it.context_expr) == "suppress":
+                    for a_ in it.context_expr.args:
+                        names |= set(exc_expr_names(a_))
+            ok = bool({n.split(".")[-1] for n in names} & {"JSONDecodeError", "ValueError", "Exception", "BaseException"})
+            ctx.oblige("C03.R5", ok, c, "a failure of this auxiliary json.loads is absorbed on the spot" if ok else f"`{src(c, 50)}` in {fq_} runs outside json mode with nothing absorbing JSONDecodeError: under parser_mode='toml', text that looks like a JSON list / dict but is not JSON (`[a, b]`, `{{\"n\": 2,}}`, the valid TOML `[table]`) makes a raw json.JSONDecodeError leave parse_string / parse_path / --cfg FILE", fn=fn_)
+    ctx.floor("C03.R5-json-decoders", n_jl, 2)
+
+    # ---------------- C03.R13 (an index guarded by a too weak length test) --------------------------------------------
+    # `len(x) > n and ... x[k]`: the author checked the length, so the index is meant to be safe - it is only if k <= n
+    # (k < n for `>=` / `==`).  A guard that is too weak turns a rejected value into an IndexError out of every parse method.
+    n_lg = 0
+    for fq_, fn_ in repo.all_funcs():
+        for bo in [n_ for n_ in ast.walk(fn_) if isinstance(n_, ast.BoolOp) and isinstance(n_.op, ast.And)]:
+            for i_, v in enumerate(bo.values):
+                if not (isinstance(v, ast.Compare) and len(v.ops) == 1 and isinstance(v.left, ast.Call) and call_leaf(v.left) == "len" and len(v.left.args) == 1 and isinstance(v.comparators[0], ast.Constant) and isinstance(v.comparators[0].value, int)):
+                    continue
+                subj = ast.unparse(v.left.args[0])
+                n_c = v.comparators[0].value
+                op = type(v.ops[0]).__name__
+                if op not in ("Gt", "GtE", "Eq"):
+                    continue
+                max_ok = n_c if op == "Gt" else n_c - 1
+                for later in bo.values[i_ + 1 :]:
+                    for sub in [x for x in ast.walk(later) if isinstance(x, ast.Subscript) and ast.unparse(x.value) == subj and isinstance(x.slice, ast.Constant) and isinstance(x.slice.value, int) and x.slice.value >= 0]:
+                        n_lg += 1
+                        ok = sub.slice.value <= max_ok
+                        ctx.oblige("C03.R13", ok, sub, f"`{ast.unparse(sub)}` is within the length guaranteed by `{ast.unparse(v)}`" if ok else f"`{ast.unparse(sub)}` is evaluated under `{ast.unparse(v)}`, which guarantees only {max_ok + 1} element(s): a one-element value (Tuple[int]) raises IndexError out of every parse method instead of being handled", fn=fn_)
+    ctx.floor("C03.R13-guarded-indexes", n_lg, 1)
+
     return ctx.finish(
         explanation=(
             "Error-discipline rules: every parse entry wraps all its package calls in try/except (TypeError, KeyError) -> self.error; argparse.ArgumentError converted; "
